@@ -210,6 +210,12 @@ def _iterate(run, gen, ws, policy, stop_after=None, max_events=100000):
             run.end = 'budget'
             run.exc = repr(e)
             break
+        except (KeyboardInterrupt, SystemExit) as e:
+            # an injected interruption (fault kinds kbint / sysexit) hit a write the LIBRARY made (Pong, Close echo):
+            # it comes out of next() as it is - the consumer was interrupted, nothing to judge about the iterator
+            run.end = 'interrupted'
+            run.exc = repr(e)
+            break
         except Exception as e:   # noqa
             run.end = 'exception'
             run.exc = repr(e)
